@@ -66,7 +66,9 @@ class PosSim:
                 nonempty = nonempty or bool(full)
         self.full = full
         if self.mark is not None:
-            self.items = [Gap('U', bool(nonempty)), self.mark]
+            import lift as _lift
+            known_empty = any(_lift.emptiness(c) is False for c in seg.conds) and not nonempty
+            self.items = ([] if known_empty else [Gap('U', bool(nonempty))]) + [self.mark]
             if full is not True:
                 self.items.append(Gap('F', full is False))
         else:
@@ -294,6 +296,8 @@ class PosSim:
         return self.list_epoch
 
     list_epoch = 0
+    infeasible = False
+    claimed = None
 
     # ------------------------------------------------------------------ replay
     def run(self):
@@ -304,6 +308,16 @@ class PosSim:
                 c = seg.conds[i]
                 if c[0] in ('IS_LAST_USED', 'IS_FRONT') and isinstance(c[1][0], Ent) and c[1][0].kind in ('FOUND', 'AUXHEAD', 'RANDPOS', 'BACK'):
                     self.ensure(c[1][0])
+                if c[0] == 'IS_FRONT' and c[2] is True and isinstance(c[1][0], Ent):
+                    # the path tested that this node is the head of the list: nothing is in front of it
+                    n = self.find_ent(c[1][0]) or (self.claimed if c[1][0].kind == 'ATPART' else None)
+                    if n is not None and n in self.items:
+                        idx = self.items.index(n)
+                        pre = self.items[:idx]
+                        if any(isinstance(x, Node) or (isinstance(x, Gap) and x.nonempty) for x in pre):
+                            self.infeasible = True       # contradicts what the path established earlier (e.g. capacity 1 only)
+                            return self
+                        self.items = [x for x in pre if isinstance(x, Mark)] + self.items[idx:]
                 continue
             if k == 'loop':
                 lp, segs = seg.loops[i]
@@ -471,11 +485,24 @@ class PosSim:
         else:
             self.unknown.append('bound slot %s not resolved to a list node' % show(e.sid))
 
+    def memo_node(self, term):
+        """the node an iterator-valued term was resolved to when it was computed (never creates one)"""
+        if not isinstance(term, tuple):
+            return None
+        it = term
+        if self.r.kind == 'slotvec':
+            it = term[2][1] if (is_ld(term) and isinstance(term[2], tuple) and term[2][0] == 'deref') else None
+        n = self.memo.get(it) if it is not None else None
+        return n if isinstance(n, Node) else None
+
     def do_unbind(self, e):
         ent = e.ent
         n = None
         if ent is not None:
-            n = self.find_ent(ent)
+            # an iterator taken earlier on the path keeps naming its node wherever that node has been moved since
+            n = self.memo_node(getattr(ent, 'term', None))
+            if n is None:
+                n = self.find_ent(ent)
             if n is None and ent.kind in ('FOUND', 'AUXHEAD', 'BACK', 'FRONT', 'RANDPOS'):
                 n = self.ensure(ent)
             if n is None and ent.kind == 'FROMEND':
